@@ -554,6 +554,11 @@ class StartStopSuite(SystemSuite):
                     for c in ("That's all", "Stand next", "Rounds"):
                         if rng.random() < (0.35 if tier == "quick" else 1.0):
                             yield mk([(g, rng.randrange(n), False, "Go"), (t, rng.randrange(n), rng.random() < 0.3, c)])
+            for _k in range(3 if tier == "quick" else 8):     # That's all and Stand next in the same whole pull, either order
+                g = rng.randint(0, 1)
+                t = rng.randint(g + 3, 8)
+                first, second = rng.choice([("That's all", "Stand next"), ("Stand next", "That's all")])
+                yield mk([(g, rng.randrange(n), False, "Go"), (t, 0, False, first), (t + rng.choice([0, 0, 1]), n - 1, False, second)])
             yield self.make(rng, stage=stage, n=n, start_index=si, udi=udi, sar=sar, placements=[], nrows=nrows,
                             method=method, stray_go=True)
             for g in (0, 1):                                 # false start: Go, then Look to again
@@ -1460,6 +1465,7 @@ def wait_session(rng, tier):
     evs.append(ev(look_to, "call", "Look to"))
     shift = Fraction(0)          # humans follow the band: later blows move with earlier hold-ups (roughly)
     long_done = False
+    stand_called = False
     for r, row in enumerate(rows):
         for p, bell in enumerate(row):
             if bell not in humans:
@@ -1471,6 +1477,11 @@ def wait_session(rng, tier):
                 t += iv * Fraction(rng.randint(-20, 20), 100)                  # roughly on time
             elif k < 0.75:
                 late = Fraction(rng.choice([3, 13, 250, 900, 2500]), 1000)     # late by ms .. seconds
+                if late > 2 and not stand_called and rng.random() < 0.5:
+                    # somebody calls Stand next while Wheatley is being held up: it takes effect at the next handstroke,
+                    # until then nobody may be overtaken
+                    evs.append(ev(t + late / 2, "call", "Stand next"))
+                    stand_called = True
                 if not long_done and rng.random() < 0.04:
                     late = Fraction(rng.choice([330, 400]))                     # ... or by minutes (once per session)
                     long_done = True
